@@ -251,6 +251,7 @@ pub fn run_check(prop: &str, tier: Tier, seed: u64) -> i32 {
 		"C09" => c09(tier, seed),
 		"C12" => c12(tier, seed),
 		"C07" => c07(tier, seed),
+		"C16" => c16(tier, seed),
 		"C14" => types_check("C14", tier, seed),
 		"C15" => types_check("C15", tier, seed),
 		"C02" => c02(tier, seed),
@@ -519,6 +520,16 @@ pub fn replay(path: &str) -> i32 {
 			let mut f = mine(&prop, &r);
 			f.extend(post_findings(&prop, &AnyCase::Conc(case), &r));
 			f
+		}
+		"drops" => {
+			let plan: crate::drops::DPlan = match serde_json::from_value(c["plan"].clone()) {
+				Ok(p) => p,
+				Err(e) => {
+					eprintln!("bad plan: {e}");
+					return 2;
+				}
+			};
+			crate::drops::run_plan(&plan).findings
 		}
 		"types" => {
 			let pair: crate::tyeng::Pair = match serde_json::from_value(c["pair"].clone()) {
@@ -1310,5 +1321,36 @@ fn types_check(prop: &'static str, tier: Tier, seed: u64) -> i32 {
 	};
 	let quick_n = 320;
 	types_campaign(&mut ctx, prop, tier, quick_n);
+	ctx.finish()
+}
+
+
+fn c16(tier: Tier, seed: u64) -> i32 {
+	let mut ctx = CheckCtx::new("C16", "exploration", tier, seed);
+	ctx.assumptions = vec![
+		"payloads count their drops in a per-scenario table; 'dropped exactly once' is read from that table after the scenario let go of everything".into(),
+		"scenarios use happylock's default parking_lot raw locks (no lock instrumentation is needed for this property)".into(),
+	];
+	ctx.rule = "Scenario plans decoded from proptest byte vectors: leaf type (Mutex, RwLock, Poisonable<Mutex>) x container (Vec, Box<[_]>, arrays of 0..4, tuples of 1..3) x size 0..4 x construction path (Boxed new / from / try_new / new_ref, Owned new / from, Retrying new / from / try_new / new_ref, Ref new / try_new, and try_new REJECTING an input that owns locks next to a duplicated reference) x writes under lock (through collection guards and scoped closures, per position) x optional poisoning panic x destruction path (drop, into_child + into_inner of the container, into_inner, get_mut / child_mut then drop, by-reference collection then container get_mut / into_inner). Oracle: drop-counting payloads: every id exactly once when everything is gone (and exactly once right after a rejected try_new); get_mut / into_inner / into_child return (id, last written version) at every declared position. Non-trivial = a write under a lock followed by a consuming destructor or observer, or a rejected try_new with owned content; distinct = hash of the plan.".into();
+	let n = tier.pick(200_000, 4_000_000);
+	ctx.search("drop-once-and-round-trip", n, 40, |bytes, want| {
+		let plan = crate::drops::gen_plan(&mut Src::new(bytes));
+		let out = crate::drops::run_plan(&plan);
+		let nontrivial = (!plan.writes.is_empty() && plan.n > 0 && plan.end != crate::drops::DEnd::Drop)
+			|| matches!(plan.kind, crate::drops::DKind::BoxedRejected | crate::drops::DKind::RetryRejected);
+		let replay = if out.findings.is_empty() { None } else { Some(json!({"engine": "drops", "plan": plan})) };
+		CaseReport {
+			violations: out.findings,
+			nontrivial,
+			fp: fp_str(&format!("{plan:?}")),
+			labels: out.labels,
+			sample: if want && nontrivial { Some(json!({"plan": plan})) } else { None },
+			replay,
+			..Default::default()
+		}
+	});
+	ctx.require_label("c16.rejected_try_new_with_owned_content", 1000);
+	ctx.require_label("c16.poisoned", 1000);
+	ctx.require_label("c16.end.IntoChild", 1000);
 	ctx.finish()
 }
